@@ -91,7 +91,8 @@ def doc_from_chart(cm):
             td['target'] = cm.names[tg]
         if e:
             td['event'] = cg.EVENTS[e]
-        td['guard'] = 'True'
+        td['guard'] = ['x in {0, 1}', 'True', 'len({}) == 0'][t % 3]        # braces and % signs are mere text to the importer
+        td['action'] = ['d = {}', 'y = "%s %d {0}"', 'pass'][t % 3]
         td['priority'] = ['high', 5, 'low', -3][t % 4]
         if t % 3 == 0:
             td['contract'] = [{'before': 'True'}]
@@ -115,12 +116,12 @@ def inject(fault, pos, doc, nodes, cm):
         c = pick([i for i in range(n) if cm.kind[i] == cg.FINAL])
         if c is None:
             return False
-        nodes[c]['transitions'] = [{'target': cm.names[0]}]
+        nodes[c]['transitions'] = [{'target': cm.names[0], 'guard': 'x in {0, 1}', 'event': 'e{0}'}]
     elif fault == 'tr_from_history':
         c = pick([i for i in range(n) if cm.kind[i] >= cg.SH])
         if c is None:
             return False
-        nodes[c]['transitions'] = [{'target': cm.names[cm.init[c]], 'event': 'e'}]
+        nodes[c]['transitions'] = [{'target': cm.names[cm.init[c]], 'event': 'e', 'guard': '{x} == {1}'}]
     elif fault == 'unknown_target':
         c = pick(trs)
         if c is None:
